@@ -5,24 +5,24 @@ long-lived Cleaner.  An event is one call `clean_content([line, ...])`; a line i
 joined by " | " - a delimiter no token and no substitute contains - so the output is re-split
 positionally and the substitute of every single occurrence is observed exactly.
 
-State of the search = (obfuscator tables, oracle memory):
+State of the search = (what every obfuscator's public mapping() lists, oracle memory).  The driver names no
+private attribute of any obfuscator (a refactoring of the table representation must not break the check):
 
-* obfuscator tables: `IPv4._ip_db`, `Hostname._hn_db` + `_hostname_count`, `Mac._mac_db`,
-  `Keyword._obfuscated`, `IPv6._ipv6_db`.  Reading insights/cleaner/{__init__,ip,hostname,mac,keyword,
-  password}.py: these are the only attributes `parse_line` / `mapping` / `generate_report` read that
-  are ever written after construction (`_dn_db`, `_kw_db`, the patterns, `_ignore_list`, `fqdn` are
-  fixed by the constructor from the immutable configuration; Password and AllowFilter are stateless;
-  no Pattern object exists without exclusion patterns).  The tables are compared *sorted*: look-ups scan
-  the whole table, an original is inserted only when absent (values stay unique), `max(keys)` and the
-  set-like reports are order-free, so dict insertion order has no influence on any future.
-* oracle memory: original -> substitute pairs observed in outputs so far (its key set is the set of
+* a state is *held* as a generic snapshot of the whole live Cleaner (pickle round trip, falling back to
+  copy.deepcopy, falling back to replaying the history on a fresh Cleaner - `Snapshots`);
+* a state is *identified* by the sorted mapping() of every obfuscator (IPv4, IPv6, host name, MAC, keyword) - see
+  `canon` for the argument why that determines every future on the code as it is (reading insights/cleaner/
+  {__init__,ip,hostname,mac,keyword,password}.py: the tables behind mapping() plus the host-name counter, which
+  equals the number of listed names, are the only things written after construction; Password and AllowFilter
+  are stateless; no Pattern object exists without exclusion patterns) - together with
+* the oracle memory: original -> substitute pairs observed in outputs so far (its key set is the set of
   originals that occurred).  The oracle is history-wide, so two histories may only be merged when the
   oracle remembers the same things about both.
 
-A transition restores the tables into a worker-local Cleaner, calls the real `clean_content`, reads
-`mapping()` of every obfuscator, evaluates the oracle, canonicalises.  A branch is cut at its first
-violation.  Restoring tables (instead of replaying) is cross-checked: every 53rd new state is rebuilt
-by replaying its history on a fresh Cleaner and compared; the first 4 violating transitions of every
+A transition materialises a fresh copy of the predecessor's Cleaner from its snapshot, calls the real
+`clean_content`, reads `mapping()` of every obfuscator, evaluates the oracle, canonicalises.  A branch is cut at
+its first violation.  Every 53rd new state is rebuilt by replaying its history on a fresh Cleaner and compared
+with the restored snapshot; the first 4 violating transitions of every
 (clause, feature vector) per work unit - a superset of the ones the result keeps - are re-executed from
 the initial state through `check_case` (the replay entry point) and must agree with the explorer, so an
 unsound merge / restore could at worst hide a bug, never raise a false alarm.
@@ -61,9 +61,11 @@ findings-draft/C09.json with the structural trigger computed by `trigger_feature
  * host names: `b.corp.test | a.b.corp.test` (or `| db.corp.test`) -> `host2.example.com | a.host2.example.com`;
  * MAC: `M | sub(M)` when sub(M) had occurred before M was first seen (so it has an entry of its own).
 """
+import copy
 import itertools
 import json
 import os
+import pickle
 
 from mc.result import Result
 from harness import tmp
@@ -159,22 +161,23 @@ RULE = ("explicit-state BFS over histories of clean_content([line..]) events on 
         "line of <= k tokens (all ordered token tuples, repeats included) or two 1-token lines; histories up "
         "to the family's depth; the mixed family skips histories whose tokens all belong to one single-kind "
         "family (those are covered deeper there), so no history is executed twice. States = (sorted "
-        "obfuscator tables, oracle memory); depth-0/1 states are de-duplicated globally (one work unit per "
+        "mapping() of every obfuscator, oracle memory) - public observations only; depth-0/1 states are de-duplicated globally (one work unit per "
         "distinct depth-1 state), deeper states are de-duplicated and COUNTED PER UNIT (the same deeper state "
         "reached from two different depth-1 states is counted and expanded in both). evaluations = "
         "transitions = distinct (state, event) executions of the real clean_content; a transition is "
         "non-trivial when at least one occurrence in the event is a recurrence of an original already "
         "observed (same line, earlier line or earlier event), i.e. clause (1) compared two occurrences")
 ASSUMPTIONS = [
-    "the obfuscator tables listed in the module docstring are the only mutable state parse_line/mapping/"
-    "generate_report depend on (argued from the code; restore-vs-replay agreement is sampled every 53rd state)",
+    "what mapping() lists determines every future of the Cleaner (argued from the code in canon(); a tree with more "
+    "hidden state could make merges too coarse = possible miss, never an alarm; snapshot-vs-replay agreement is "
+    "sampled every 53rd state); states are held as pickle/deepcopy snapshots of the whole live Cleaner",
     "set iteration order of the obfuscator names is the one of PYTHONHASHSEED=0 (order dependence is C10's subject; "
     "the alphabet contains no token that two obfuscators compete for)",
     "bounded: no counterexample within the stated alphabet, line width, spec shape and history depth, nothing more",
     "an unreplaced and unlisted original (host outside the domain, guarded MAC) is outside injectivity and reporting",
 ]
 TECHNIQUE = ("explicit-state BFS over call histories of one live Cleaner (transition function = the real clean_content, "
-             "states = obfuscator tables + oracle memory), history-wide mapping invariants checked in every state")
+             "states = public mapping() of every obfuscator + oracle memory, held as whole-object snapshots), history-wide mapping invariants checked in every state")
 LEVEL_TEXT = ("Every history of clean_content calls up to depth 3 (quick) / 4 (thorough) over a token alphabet with one "
               "symbol per collision class visible in the code (prefix-related IPs, originals equal to issuable "
               "substitutes, suffix-related host names, short/FQDN system name, MAC case variants, the guarded "
@@ -215,28 +218,59 @@ def new_cleaner(scratch_dir):
     return cl
 
 
-# ---- state access -----------------------------------------------------------------------------
+# ---- state access (public interface only) ------------------------------------------------------
 
-def snapshot(cl):
-    o = cl.obfuscate
-    hn = o["hostname"]
-    return (tuple(o["ip"]._ip_db.items()), tuple(hn._hn_db.items()), hn._hostname_count,
-            tuple(o["mac"]._mac_db.items()), tuple(o["keyword"]._obfuscated), tuple(o["ipv6"]._ipv6_db.items()))
+class Snapshots(object):
+    """Generic snapshots of the WHOLE live Cleaner - no private attribute of any obfuscator is named.
+    pickle round trip when the object supports it (measured 32 us to restore, 32 us to take), else
+    copy.deepcopy (130 us), else the event history itself (restore = replay on a fresh Cleaner)."""
+
+    def __init__(self, scratch_dir):
+        self.scratch_dir = scratch_dir
+        cl = new_cleaner(scratch_dir)
+        cl.clean_content(["%s | %s" % (IPS[0], HOSTS[2])])
+        self.mode = None
+        for mode in ("pickle", "deepcopy"):
+            try:
+                self.mode = mode
+                c2 = self.give(self.take(cl, None))
+                if read_mappings(c2) == read_mappings(cl) and c2.report_dir == cl.report_dir:
+                    return
+            except Exception:
+                pass
+        self.mode = "replay"
+
+    def take(self, cl, hist):
+        if self.mode == "pickle":
+            return pickle.dumps(cl, pickle.HIGHEST_PROTOCOL)
+        if self.mode == "deepcopy":
+            return copy.deepcopy(cl)
+        return [list(map(list, e)) for e in hist]
+
+    def give(self, snap):
+        """-> a live Cleaner in the snapshotted state that the caller may mutate."""
+        if self.mode == "pickle":
+            return pickle.loads(snap)
+        if self.mode == "deepcopy":
+            return copy.deepcopy(snap)
+        cl = new_cleaner(self.scratch_dir)
+        for e in snap:
+            cl.clean_content(event_lines(e))
+        return cl
 
 
-def restore(cl, snap):
-    o = cl.obfuscate
-    o["ip"]._ip_db = dict(snap[0])
-    o["hostname"]._hn_db = dict(snap[1])
-    o["hostname"]._hostname_count = snap[2]
-    o["mac"]._mac_db = dict(snap[3])
-    o["keyword"]._obfuscated = set(snap[4])
-    o["ipv6"]._ipv6_db = dict(snap[5])
-
-
-def canon(snap, obs):
-    return (tuple(sorted(snap[0])), tuple(sorted(snap[1])), snap[2], tuple(sorted(snap[3])),
-            tuple(sorted(snap[4])), tuple(sorted(snap[5])), tuple(sorted(obs.items())))
+def canon(maps, obs):
+    """Canonical state from PUBLIC observations only: the sorted mapping() of every obfuscator plus the oracle's
+    memory.  Why merged states have the same futures on the code as it is: every table is a function of what
+    mapping() lists - the next IPv4 substitute is max(listed substitutes)+1, the host-name counter is the number
+    of listed names (one entry per increment, the constructor's entry included, nothing is ever removed), the
+    MAC / IPv6 nested-obfuscation guards test membership in the listed substitutes, the keyword set is the listed
+    originals; listing order never matters (look-ups scan everything, reports are compared as sets).  A tree that
+    keeps additional hidden state makes this canon too coarse; a merge then only drops the futures of the
+    non-representative history (possible miss, sampled by the every-53rd rebuild): every transition is executed on
+    a faithful copy of a really reached object and every kept violation is re-executed through check_case."""
+    return (tuple(sorted((kind, orig, tuple(subs)) for kind, d in maps.items() for orig, subs in d.items())),
+            tuple(sorted(obs.items())))
 
 
 MAP_KINDS = (("ip", "ip"), ("hostname", "host"), ("mac", "mac"), ("keyword", "kw"), ("ipv6", "ipv6"))
@@ -569,14 +603,14 @@ def depth1(fam, tier):
     evs = menu(fam, tier)
     reps, keys, bad = [], {}, set()
     with tmp.scratch("c09u") as d:
-        cl = new_cleaner(d)
-        init = snapshot(cl)
+        snaps = Snapshots(d)
+        init = snaps.take(new_cleaner(d), [])
         for i, ev in enumerate(evs):
-            restore(cl, init)
-            v, obs, _info, _maps = step(cl, {}, ev)
+            cl = snaps.give(init)
+            v, obs, _info, maps = step(cl, {}, ev)
             if v:
                 continue
-            key = canon(snapshot(cl), obs)
+            key = canon(maps, obs)
             if key not in keys and key not in bad:
                 if check_reports(cl, d, obs):      # clause (5) fails in this state: reported by the depth1 unit, cut
                     bad.add(key)
@@ -642,8 +676,9 @@ def run_unit(unit, tier):
     newstates = [0]
 
     with tmp.scratch("c09") as d:
-        cl = new_cleaner(d)
-        init = snapshot(cl)
+        snaps = Snapshots(d)
+        res.notes.append("state snapshots by %s of the whole live Cleaner" % snaps.mode)
+        init = snaps.take(new_cleaner(d), [])
 
         def record(hist, event, viols, before, maps):
             """Violations of one transition. Each kind is first re-executed from the initial state through
@@ -668,8 +703,8 @@ def run_unit(unit, tier):
                 res.outcomes.add("viol:%s:%s" % (clause, f.get("trigger")))
 
         def transition(hist, snap, obs, event):
-            """-> (key, snap, obs) of the successor, or None when the branch is cut."""
-            restore(cl, snap)
+            """-> (key, live Cleaner, obs, maps) of the successor, or None when the branch is cut."""
+            cl = snaps.give(snap)
             v, new, info, maps = step(cl, obs, event)
             res.evals += 1
             res.transitions += 1
@@ -684,17 +719,17 @@ def run_unit(unit, tier):
             if v:
                 record(hist, event, v, obs, maps)
                 return None
-            s2 = snapshot(cl)
-            return canon(s2, new), s2, new
+            return canon(maps, new), cl, new, maps
 
-        def admit(hist, event, snap, obs, before):
-            """A newly discovered state: clause (5) on the real reports; sampled restore-vs-replay check.
-            (the Cleaner still holds exactly this state: admit directly follows the transition)"""
+        def admit(hist, event, cl, obs, before, maps):
+            """A newly discovered state (cl is the live Cleaner in exactly that state): clause (5) on the real
+            reports; sampled snapshot-vs-replay check. -> snapshot, or None when the state violates."""
             res.stat("states_report_checked")
             v = check_reports(cl, d, obs)
             if v:
-                record(hist, event, v, before, read_mappings(cl))
-                return False
+                record(hist, event, v, before, maps)
+                return None
+            snap = snaps.take(cl, hist + [event])
             newstates[0] += 1
             if newstates[0] % CROSSCHECK_EVERY == 0:
                 with tmp.scratch("c09x") as d2:
@@ -702,9 +737,9 @@ def run_unit(unit, tier):
                     for e in hist + [event]:
                         c2.clean_content(event_lines(e))
                     res.stat("full_replays_from_initial_state")
-                    if canon(snapshot(c2), {}) != canon(snap, {}):
-                        raise RuntimeError("restored tables differ from replayed tables for %r" % (hist + [event],))
-            return True
+                    if canon(read_mappings(c2), {}) != canon(read_mappings(snaps.give(snap)), {}):
+                        raise RuntimeError("restored snapshot differs from the replayed history %r" % (hist + [event],))
+            return snap
 
         if unit["part"] == "depth1":
             res.states = 1
@@ -715,10 +750,10 @@ def run_unit(unit, tier):
                 t = transition([], init, {}, ev)
                 if t is None:
                     continue
-                key, s2, obs2 = t
+                key, cl2, obs2, maps2 = t
                 if key in seen:
                     continue
-                if admit([], ev, s2, obs2, {}):
+                if admit([], ev, cl2, obs2, {}, maps2) is not None:
                     seen.add(key)
                     res.states += 1
                     res.maxi("max_originals_in_a_state", len(obs2))
@@ -728,13 +763,13 @@ def run_unit(unit, tier):
 
         # subtree below one distinct depth-1 state
         first = unit["first"]
-        restore(cl, init)
-        v, obs1, _info, _maps = step(cl, {}, first)
+        cl1 = snaps.give(init)
+        v, obs1, _info, maps1 = step(cl1, {}, first)
         if v:
             raise RuntimeError("first event of a subtree unit violates: %r" % (first,))
-        s1 = snapshot(cl)
+        s1 = snaps.take(cl1, [first])
         _reps, keys1 = depth1(fam, tier)
-        if canon(s1, obs1) not in keys1:
+        if canon(maps1, obs1) not in keys1:
             raise RuntimeError("depth-1 state of %r not in the global depth-1 table" % (first,))
         seen = set(keys1)          # every depth-1 state is expanded by its own unit
         frontier = [([first], s1, obs1)]
@@ -748,10 +783,11 @@ def run_unit(unit, tier):
                     t = transition(hist, snap, obs, ev)
                     if t is None:
                         continue
-                    key, s2, obs2 = t
+                    key, cl2, obs2, maps2 = t
                     if key in seen:
                         continue
-                    if admit(hist, ev, s2, obs2, obs):
+                    s2 = admit(hist, ev, cl2, obs2, obs, maps2)
+                    if s2 is not None:
                         seen.add(key)
                         res.states += 1
                         res.maxi("max_originals_in_a_state", len(obs2))
